@@ -193,4 +193,627 @@ Proof.
   pose proof (Htri (c_p qc) q' x Hdq Hdq' Hx). lia.
 Qed.
 
+(* ---------- the sets ---------- *)
+Definition zero_ok (q : Z) (zero : list dnode) : Prop :=
+  forall e, In e zero -> is_leaf (snd e) = true /\ fst e = dd d q (c_p (snd e)) /\ node_ok (snd e).
+
+Definition cover_ok (q : Z) (cs ms : nat) (cover : list centry) : Prop :=
+  forall s dist n, In (s, (dist, n)) cover -> (cs <= s)%nat ->
+    (s <= ms)%nat /\ is_leaf n = false /\ (s <= c_scale n)%nat /\ dist = dd d q (c_p n) /\ node_ok n.
+
+Definition in_zero (zero : list dnode) (x : Z) : Prop := exists e, In e zero /\ In x (lp (snd e)).
+Definition in_cover (cover : list centry) (lo : nat) (x : Z) : Prop :=
+  exists s dist n, In (s, (dist, n)) cover /\ (lo <= s)%nat /\ In x (lp n).
+Definition covered (cover : list centry) (zero : list dnode) (cs : nat) (x : Z) : Prop :=
+  in_zero zero x \/ in_cover cover cs x.
+
+Lemma eadd_some : forall e z w, eadd e z = Some w -> exists v, e = Some v /\ w = v + z.
+Proof. intros [v|] z w H; cbn [eadd] in H; [injection H as <-; now exists v | discriminate]. Qed.
+
+Lemma zero_ok_nil : forall q, zero_ok q [].
+Proof. intros q e []. Qed.
+
+Lemma zero_ok_cons : forall q e l, zero_ok q (e :: l) <->
+  (is_leaf (snd e) = true /\ fst e = dd d q (c_p (snd e)) /\ node_ok (snd e)) /\ zero_ok q l.
+Proof.
+  intros q e l. split.
+  - intros H. split; [apply H; now left | intros e' He'; apply H; now right].
+  - intros [He Hl] e' [<-|He']; [assumption | now apply Hl].
+Qed.
+
+Lemma maxd_nonneg : forall n, node_ok n -> 0 <= c_maxd n.
+Proof.
+  intros n Hn. pose proof (inv_maxd n (c_p n) (proj1 Hn) (lp_nonempty_p n (proj1 Hn))) as H.
+  now rewrite dd_refl in H.
+Qed.
+
+(* everything below n is farther than v + a from q when n.p is farther than v + a + max_dist(n) *)
+Lemma far_below : forall q n v a x, dom q -> node_ok n ->
+  v + a + c_maxd n < dd d q (c_p n) -> In x (lp n) -> v + a < dd d q x.
+Proof. intros q n v a x Hq Hn H Hx. pose proof (below_far q n x Hq Hn Hx). lia. Qed.
+
+(* ---------- copy_zero_set ---------- *)
+Definition keepz (qc : ctree) (ub : list ext) (e : dnode) : bool :=
+  shell (fst e) (c_pard qc) (eadd (ub0 ub) (c_maxd qc)) &&
+  le_e (dd d (c_p qc) (c_p (snd e))) (eadd (ub0 ub) (c_maxd qc)).
+
+Lemma copy_zero_set_cons : forall qc ub e rest ok,
+  copy_zero_set d au qc ub (e :: rest) ok =
+  if keepz qc ub e then
+    let dq := dd d (c_p qc) (c_p (snd e)) in
+    let '(ub2, out, ok2) := copy_zero_set d au qc (if lt_e dq (ub0 ub) then ub_update ub dq else ub) rest
+                                          (ok && au true qc ub) in
+    (ub2, (dq, snd e) :: out, ok2)
+  else copy_zero_set d au qc ub rest (ok && au true qc ub).
+Proof.
+  intros qc ub [edist en] rest ok. unfold keepz. cbn [copy_zero_set fst snd].
+  destruct (shell edist (c_pard qc) (eadd (ub0 ub) (c_maxd qc))); cbn [andb]; [|reflexivity].
+  destruct (le_e (dd d (c_p qc) (c_p en)) (eadd (ub0 ub) (c_maxd qc))); reflexivity.
+Qed.
+
+Lemma keepz_false_far : forall qc q ub e,
+  keepz qc ub e = false -> node_ok qc -> dom q -> dd d q (c_p qc) <= c_pard qc ->
+  fst e = dd d q (c_p (snd e)) -> dom (c_p (snd e)) ->
+  exists v, ub0 ub = Some v /\ v + c_maxd qc < dd d (c_p qc) (c_p (snd e)).
+Proof.
+  intros qc q ub [edist en] H Hqc Hq Hpd Hdist Hde. cbn [fst snd] in *. unfold keepz in H. cbn [fst snd] in H.
+  pose proof (node_ok_dom qc Hqc) as Hdc.
+  apply andb_false_iff in H. destruct H as [H|H].
+  - unfold shell in H. apply le_e_false in H. destruct H as [w [Hw Hlt]].
+    apply eadd_some in Hw. destruct Hw as [v [Hv ->]]. exists v. split; [assumption|].
+    pose proof (Htri q (c_p qc) (c_p en) Hq Hdc Hde). lia.
+  - apply le_e_false in H. destruct H as [w [Hw Hlt]].
+    apply eadd_some in Hw. destruct Hw as [v [Hv ->]]. exists v. split; [assumption | lia].
+Qed.
+
+Lemma copy_zero_set_spec : forall qc q zero ub ok ub' out ok',
+  copy_zero_set d au qc ub zero ok = (ub', out, ok') -> ok' = true ->
+  node_ok qc -> dom q -> dd d q (c_p qc) <= c_pard qc -> zero_ok q zero ->
+  ok = true /\ zero_ok (c_p qc) out /\
+  forall q' x, In q' (lp qc) -> needed q' x -> in_zero zero x -> in_zero out x.
+Proof.
+  intros qc q zero. induction zero as [|e rest IH]; intros ub ok ub' out ok' E Hok' Hqc Hq Hpd Hz.
+  - cbn [copy_zero_set] in E. injection E as <- <- <-. split; [assumption|]. split; [apply zero_ok_nil|].
+    intros q' x _ _ [e [[] _]].
+  - apply zero_ok_cons in Hz. destruct Hz as [[Hleaf [Hdist Hen]] Hz].
+    pose proof (node_ok_dom (snd e) Hen) as Hde.
+    rewrite copy_zero_set_cons in E. destruct (keepz qc ub e) eqn:Hk.
+    + cbv zeta in E.
+      destruct (copy_zero_set d au qc _ rest (ok && au true qc ub)) as [[ub2 out2] ok2] eqn:E2.
+      injection E as <- <- <-.
+      destruct (IH _ _ _ _ _ E2 Hok' Hqc Hq Hpd Hz) as [Hok1 [Hzo Hcov]].
+      apply andb_true_iff in Hok1. destruct Hok1 as [Hok _]. split; [assumption|]. split.
+      * apply zero_ok_cons. split; [|assumption]. cbn [fst snd]. repeat split; try assumption; apply Hen.
+      * intros q' x Hq' Hn [e' [[<-|He'] Hx]].
+        -- exists (dd d (c_p qc) (c_p (snd e)), snd e). split; [now left | assumption].
+        -- destruct (Hcov q' x Hq' Hn (ex_intro _ e' (conj He' Hx))) as [e'' [He'' Hx'']].
+           exists e''. split; [now right | assumption].
+    + destruct (IH _ _ _ _ _ E Hok' Hqc Hq Hpd Hz) as [Hok1 [Hzo Hcov]].
+      apply andb_true_iff in Hok1. destruct Hok1 as [Hok Hau]. split; [assumption|]. split; [assumption|].
+      intros q' x Hq' Hn [e' [[<-|He'] Hx]].
+      * exfalso. rewrite (lp_leaf (snd e) Hleaf) in Hx. destruct Hx as [<-|[]].
+        destruct (keepz_false_far qc q ub e Hk Hqc Hq Hpd Hdist Hde) as [v [Hv Hfar]].
+        exact (audit_copy qc ub v q' (c_p (snd e)) Hqc Hau Hv Hq' Hfar Hde Hn).
+      * apply (Hcov q' x Hq' Hn). now exists e'.
+Qed.
+
+(* ---------- copy_slot / copy_cover_sets ---------- *)
+Definition keepc (qc : ctree) (ub : list ext) (e : dnode) : bool :=
+  shell (fst e) (c_pard qc) (eadd (eadd (ub0 ub) (c_maxd qc)) (c_maxd (snd e))) &&
+  le_e (dd d (c_p qc) (c_p (snd e))) (eadd (eadd (ub0 ub) (c_maxd qc)) (c_maxd (snd e))).
+
+Lemma copy_slot_cons : forall qc ub s es e rest ok,
+  copy_slot d au qc ub s ((es, e) :: rest) ok =
+  if Nat.eqb es s then
+    if keepc qc ub e then
+      let dq := dd d (c_p qc) (c_p (snd e)) in
+      let '(ub2, out, ok2) := copy_slot d au qc (if lt_e dq (ub0 ub) then ub_update ub dq else ub) s rest
+                                        (ok && au true qc ub) in
+      (ub2, (s, (dq, snd e)) :: out, ok2)
+    else copy_slot d au qc ub s rest (ok && au true qc ub)
+  else copy_slot d au qc ub s rest ok.
+Proof.
+  intros qc ub s es [edist en] rest ok. unfold keepc. cbn [copy_slot fst snd].
+  destruct (Nat.eqb es s); [|reflexivity].
+  destruct (shell edist (c_pard qc) (eadd (eadd (ub0 ub) (c_maxd qc)) (c_maxd en))); cbn [andb]; [|reflexivity].
+  destruct (le_e (dd d (c_p qc) (c_p en)) (eadd (eadd (ub0 ub) (c_maxd qc)) (c_maxd en))); reflexivity.
+Qed.
+
+Lemma keepc_false_far : forall qc q ub e,
+  keepc qc ub e = false -> node_ok qc -> dom q -> dd d q (c_p qc) <= c_pard qc ->
+  fst e = dd d q (c_p (snd e)) -> dom (c_p (snd e)) ->
+  exists v, ub0 ub = Some v /\ v + c_maxd qc + c_maxd (snd e) < dd d (c_p qc) (c_p (snd e)).
+Proof.
+  intros qc q ub [edist en] H Hqc Hq Hpd Hdist Hde. cbn [fst snd] in *. unfold keepc in H. cbn [fst snd] in H.
+  pose proof (node_ok_dom qc Hqc) as Hdc.
+  apply andb_false_iff in H. destruct H as [H|H].
+  - unfold shell in H. apply le_e_false in H. destruct H as [w [Hw Hlt]].
+    apply eadd_some in Hw. destruct Hw as [w1 [Hw1 ->]].
+    apply eadd_some in Hw1. destruct Hw1 as [v [Hv ->]]. exists v. split; [assumption|].
+    pose proof (Htri q (c_p qc) (c_p en) Hq Hdc Hde). lia.
+  - apply le_e_false in H. destruct H as [w [Hw Hlt]].
+    apply eadd_some in Hw. destruct Hw as [w1 [Hw1 ->]].
+    apply eadd_some in Hw1. destruct Hw1 as [v [Hv ->]]. exists v. split; [assumption | lia].
+Qed.
+
+(* what copy_slot / copy_cover_sets put out: entries of the input with the distance re-evaluated *)
+Definition from_cover (c : Z) (cover : list centry) (lo hi : nat) (out : list centry) : Prop :=
+  forall s dist n, In (s, (dist, n)) out ->
+    (lo <= s < hi)%nat /\ dist = dd d c (c_p n) /\ exists dist0, In (s, (dist0, n)) cover.
+
+Lemma copy_slot_spec : forall qc q s cover ub ok ub' out ok',
+  copy_slot d au qc ub s cover ok = (ub', out, ok') -> ok' = true ->
+  node_ok qc -> dom q -> dd d q (c_p qc) <= c_pard qc ->
+  (forall dist n, In (s, (dist, n)) cover -> dist = dd d q (c_p n) /\ node_ok n) ->
+  ok = true /\ from_cover (c_p qc) cover s (S s) out /\
+  forall q' x, In q' (lp qc) -> needed q' x ->
+    (exists dist n, In (s, (dist, n)) cover /\ In x (lp n)) ->
+    (exists dist n, In (s, (dist, n)) out /\ In x (lp n)).
+Proof.
+  intros qc q s cover. induction cover as [|[es e] rest IH]; intros ub ok ub' out ok' E Hok' Hqc Hq Hpd Hc.
+  - cbn [copy_slot] in E. injection E as <- <- <-. split; [assumption|]. split.
+    + intros s' dist n [].
+    + intros q' x _ _ [dist [n [[] _]]].
+  - assert (Hc' : forall dist n, In (s, (dist, n)) rest -> dist = dd d q (c_p n) /\ node_ok n).
+    { intros dist n Hin. apply Hc. now right. }
+    assert (Hfrom : forall out1, from_cover (c_p qc) rest s (S s) out1 ->
+                                 from_cover (c_p qc) ((es, e) :: rest) s (S s) out1).
+    { intros out1 H s' dist n Hin. destruct (H s' dist n Hin) as [H1 [H2 [d0 H3]]].
+      split; [assumption|]. split; [assumption|]. exists d0. now right. }
+    rewrite copy_slot_cons in E. destruct (Nat.eqb_spec es s) as [->|Hne].
+    + destruct e as [edist en]. destruct (Hc edist en (or_introl eq_refl)) as [Hdist Hen].
+      pose proof (node_ok_dom en Hen) as Hde.
+      destruct (keepc qc ub (edist, en)) eqn:Hk.
+      * cbv zeta in E. cbn [snd] in E.
+        destruct (copy_slot d au qc _ s rest (ok && au true qc ub)) as [[ub2 out2] ok2] eqn:E2.
+        injection E as <- <- <-.
+        destruct (IH _ _ _ _ _ E2 Hok' Hqc Hq Hpd Hc') as [Hok1 [Hfr Hcov]].
+        apply andb_true_iff in Hok1. destruct Hok1 as [Hok _]. split; [assumption|]. split.
+        -- intros s' dist n [Hin|Hin].
+           ++ injection Hin as <- <- <-. split; [lia|]. split; [reflexivity|]. exists edist. now left.
+           ++ now apply (Hfrom out2 Hfr).
+        -- intros q' x Hq' Hn [dist [n [[Hin|Hin] Hx]]].
+           ++ injection Hin as <- <-. exists (dd d (c_p qc) (c_p en)), en. split; [now left | assumption].
+           ++ destruct (Hcov q' x Hq' Hn (ex_intro _ dist (ex_intro _ n (conj Hin Hx)))) as [d1 [n1 [H1 H2]]].
+              exists d1, n1. split; [now right | assumption].
+      * destruct (IH _ _ _ _ _ E Hok' Hqc Hq Hpd Hc') as [Hok1 [Hfr Hcov]].
+        apply andb_true_iff in Hok1. destruct Hok1 as [Hok Hau]. split; [assumption|].
+        split; [now apply Hfrom|].
+        intros q' x Hq' Hn [dist [n [[Hin|Hin] Hx]]].
+        -- exfalso. injection Hin as <- <-.
+           destruct (keepc_false_far qc q ub (edist, en) Hk Hqc Hq Hpd Hdist Hde) as [v [Hv Hfar]].
+           cbn [snd] in Hfar.
+           pose proof (far_below (c_p qc) en v (c_maxd qc) x (node_ok_dom qc Hqc) Hen Hfar Hx) as Hfx.
+           exact (audit_copy qc ub v q' x Hqc Hau Hv Hq' Hfx (Hpts x (proj2 Hen x Hx)) Hn).
+        -- apply (Hcov q' x Hq' Hn). now exists dist, n.
+    + destruct (IH _ _ _ _ _ E Hok' Hqc Hq Hpd Hc') as [Hok1 [Hfr Hcov]].
+      split; [assumption|]. split; [now apply Hfrom|].
+      intros q' x Hq' Hn [dist [n [[Hin|Hin] Hx]]].
+      * exfalso. injection Hin as -> _. now apply Hne.
+      * apply (Hcov q' x Hq' Hn). now exists dist, n.
+Qed.
+
+Lemma copy_cover_sets_spec : forall qc q cover n s ub ok ub' out ok',
+  copy_cover_sets d au qc ub s n cover ok = (ub', out, ok') -> ok' = true ->
+  node_ok qc -> dom q -> dd d q (c_p qc) <= c_pard qc ->
+  (forall s' dist m, In (s', (dist, m)) cover -> (s <= s' < s + n)%nat -> dist = dd d q (c_p m) /\ node_ok m) ->
+  ok = true /\ from_cover (c_p qc) cover s (s + n) out /\
+  forall q' x, In q' (lp qc) -> needed q' x ->
+    (exists s' dist m, In (s', (dist, m)) cover /\ (s <= s' < s + n)%nat /\ In x (lp m)) ->
+    in_cover out s x.
+Proof.
+  intros qc q cover n. induction n as [|n IH]; intros s ub ok ub' out ok' E Hok' Hqc Hq Hpd Hc.
+  - cbn [copy_cover_sets] in E. injection E as <- <- <-. split; [assumption|]. split.
+    + intros s' dist m [].
+    + intros q' x _ _ [s' [dist [m [_ [Hr _]]]]]. lia.
+  - cbn [copy_cover_sets] in E.
+    destruct (copy_slot d au qc ub s cover ok) as [[ub1 out1] ok1] eqn:E1.
+    destruct (copy_cover_sets d au qc ub1 (S s) n cover ok1) as [[ub2 out2] ok2] eqn:E2.
+    injection E as <- <- <-.
+    assert (Hc2 : forall s' dist m, In (s', (dist, m)) cover -> (S s <= s' < S s + n)%nat ->
+                                    dist = dd d q (c_p m) /\ node_ok m).
+    { intros s' dist m Hin Hr. apply (Hc s' dist m Hin). lia. }
+    destruct (IH _ _ _ _ _ _ E2 Hok' Hqc Hq Hpd Hc2) as [Hok1 [Hfr2 Hcov2]].
+    assert (Hc1 : forall dist m, In (s, (dist, m)) cover -> dist = dd d q (c_p m) /\ node_ok m).
+    { intros dist m Hin. apply (Hc s dist m Hin). lia. }
+    destruct (copy_slot_spec qc q s cover ub ok ub1 out1 ok1 E1 Hok1 Hqc Hq Hpd Hc1) as [Hok [Hfr1 Hcov1]].
+    split; [assumption|]. split.
+    + intros s' dist m Hin. apply in_app_or in Hin. destruct Hin as [Hin|Hin].
+      * destruct (Hfr1 s' dist m Hin) as [H1 H2]. split; [lia | assumption].
+      * destruct (Hfr2 s' dist m Hin) as [H1 H2]. split; [lia | assumption].
+    + intros q' x Hq' Hn [s' [dist [m [Hin [Hr Hx]]]]].
+      destruct (Nat.eq_dec s' s) as [->|Hne].
+      * destruct (Hcov1 q' x Hq' Hn (ex_intro _ dist (ex_intro _ m (conj Hin Hx)))) as [d1 [n1 [H1 H2]]].
+        exists s, d1, n1. split; [apply in_or_app; now left|]. split; [lia | assumption].
+      * assert (Hr2 : (S s <= s' < S s + n)%nat) by lia.
+        destruct (Hcov2 q' x Hq' Hn (ex_intro _ s' (ex_intro _ dist (ex_intro _ m (conj Hin (conj Hr2 Hx))))))
+          as [s2 [d2 [n2 [H1 [H2 H3]]]]].
+        exists s2, d2, n2. split; [apply in_or_app; now right|]. split; [lia | assumption].
+Qed.
+
+(* ---------- descend ---------- *)
+Definition st_ok (q : Z) (cs : nat) (st : dstate) : Prop :=
+  zero_ok q (ds_zero st) /\ cover_ok q cs (ds_ms st) (ds_cover st).
+
+Definition grows (st st' : dstate) : Prop :=
+  (ds_ms st <= ds_ms st')%nat /\ incl (ds_zero st) (ds_zero st') /\ incl (ds_cover st) (ds_cover st').
+
+Lemma grows_refl : forall st, grows st st.
+Proof. intros st. split; [lia|]. split; apply incl_refl. Qed.
+
+Lemma grows_trans : forall a b c, grows a b -> grows b c -> grows a c.
+Proof.
+  intros a b c [H1 [H2 H3]] [G1 [G2 G3]]. split; [lia|].
+  split; eapply incl_tran; eassumption.
+Qed.
+
+Lemma in_zero_incl : forall z z' x, incl z z' -> in_zero z x -> in_zero z' x.
+Proof. intros z z' x H [e [He Hx]]. exists e. split; [now apply H | assumption]. Qed.
+
+Lemma in_cover_incl : forall c c' lo x, incl c c' -> in_cover c lo x -> in_cover c' lo x.
+Proof. intros c c' lo x H [s [dist [n [Hin Hr]]]]. exists s, dist, n. split; [now apply H | assumption]. Qed.
+
+Lemma cover_ok_ms : forall q cs ms ms' cover, cover_ok q cs ms cover -> (ms <= ms')%nat -> cover_ok q cs ms' cover.
+Proof.
+  intros q cs ms ms' cover H Hle s dist n Hin Hs. destruct (H s dist n Hin Hs) as [H1 H2].
+  split; [lia | assumption].
+Qed.
+
+Lemma zero_ok_app : forall q z e, zero_ok q z ->
+  is_leaf (snd e) = true -> fst e = dd d q (c_p (snd e)) -> node_ok (snd e) -> zero_ok q (z ++ [e]).
+Proof.
+  intros q z e Hz H1 H2 H3 e' He'. apply in_app_or in He'. destruct He' as [He'|[<-|[]]]; [now apply Hz|].
+  split; [exact H1|]. split; [exact H2 | exact H3].
+Qed.
+
+Lemma cover_ok_app : forall q cs ms cover sc dist n, cover_ok q cs ms cover ->
+  is_leaf n = false -> dist = dd d q (c_p n) -> node_ok n -> sc = c_scale n ->
+  cover_ok q cs (Nat.max ms sc) (cover ++ [(sc, (dist, n))]).
+Proof.
+  intros q cs ms cover sc dist n Hc H1 H2 H3 H4 s' dist' n' Hin Hs.
+  apply in_app_or in Hin. destruct Hin as [Hin|[Hin|[]]].
+  - destruct (Hc s' dist' n' Hin Hs) as [G1 G2]. split; [lia | assumption].
+  - injection Hin as <- <- <-. split; [lia|]. split; [assumption|]. split; [lia|]. now split.
+Qed.
+
+Ltac same_sets := split; [cbn [ds_ms]; lia | split; cbn [ds_zero ds_cover]; apply incl_refl].
+
+(* one non-first child *)
+Lemma descend_child_spec : forall Q cs par pdist chi st,
+  ds_ok (descend_child d au Q pdist chi st) = true ->
+  node_ok Q -> node_ok chi -> dom (c_p par) ->
+  pdist = dd d (c_p Q) (c_p par) -> dd d (c_p par) (c_p chi) <= c_pard chi ->
+  (is_leaf chi = true \/ (cs < c_scale chi)%nat) ->
+  st_ok (c_p Q) cs st ->
+  ds_ok st = true /\ st_ok (c_p Q) cs (descend_child d au Q pdist chi st) /\
+  grows st (descend_child d au Q pdist chi st) /\
+  forall q' x, In q' (lp Q) -> needed q' x -> In x (lp chi) ->
+    in_zero (ds_zero (descend_child d au Q pdist chi st)) x \/
+    in_cover (ds_cover (descend_child d au Q pdist chi st)) (S cs) x.
+Proof.
+  intros Q cs par pdist chi st Hok HQ Hchi Hdp Hpd Hpard Hsc [Hz Hc].
+  pose proof (node_ok_dom Q HQ) as Hdq. pose proof (node_ok_dom chi Hchi) as Hdc.
+  pose proof (maxd_nonneg chi Hchi) as Hmc. pose proof (maxd_nonneg Q HQ) as HmQ.
+  unfold descend_child in *.
+  set (ub := ds_ub st) in *. set (ok1 := ds_ok st && au false Q ub) in *.
+  set (upper_chi := eadd (eadd (eadd (ub0 ub) (c_maxd chi)) (c_maxd Q)) (c_maxd Q)) in *.
+  set (dq := dd d (c_p Q) (c_p chi)) in *.
+  (* when the child is not pushed everything below it is too far *)
+  assert (Hfar : forall v, ub0 ub = Some v -> ok1 = true ->
+                 v + c_maxd Q + c_maxd Q + c_maxd chi < dq \/
+                 (is_leaf chi = true /\ v + c_maxd Q + c_maxd Q < dq) ->
+                 forall q' x, In q' (lp Q) -> needed q' x -> In x (lp chi) -> False).
+  { intros v Hv Hk1 Hcase q' x Hq' Hn Hx. apply andb_true_iff in Hk1. destruct Hk1 as [_ Hau].
+    assert (Hfx : v + c_maxd Q + c_maxd Q < dd d (c_p Q) x).
+    { destruct Hcase as [H|[Hl H]].
+      - assert (H' : v + (c_maxd Q + c_maxd Q) + c_maxd chi < dd d (c_p Q) (c_p chi)) by (unfold dq in H; lia).
+        pose proof (far_below (c_p Q) chi v (c_maxd Q + c_maxd Q) x Hdq Hchi H' Hx). lia.
+      - rewrite (lp_leaf chi Hl) in Hx. destruct Hx as [<-|[]]. exact H. }
+    exact (audit_descend Q ub v q' x HQ Hau Hv Hq' Hfx (Hpts x (proj2 Hchi x Hx)) Hn). }
+  destruct (shell pdist (c_pard chi) upper_chi) eqn:Hsh.
+  - destruct (le_e dq upper_chi) eqn:Hle.
+    + destruct (negb (is_leaf chi)) eqn:Hnl.
+      * (* pushed into its cover set *)
+        cbn [ds_ok ds_zero ds_cover ds_ms] in *. apply andb_true_iff in Hok.
+        split; [apply Hok|]. apply negb_true_iff in Hnl.
+        destruct Hsc as [Hsc|Hsc]; [congruence|]. split; [|split].
+        -- split; [assumption|]. now apply cover_ok_app.
+        -- split; [cbn [ds_ms]; lia|]. split; [apply incl_refl | cbn [ds_cover]; now apply incl_appl, incl_refl].
+        -- intros q' x _ _ Hx. right. exists (c_scale chi), dq, chi.
+           split; [apply in_or_app; right; now left|]. split; [lia | assumption].
+      * apply negb_false_iff in Hnl.
+        destruct (le_e dq (eadd upper_chi (- c_maxd chi))) eqn:Hle2.
+        -- cbn [ds_ok ds_zero ds_cover ds_ms] in *. apply andb_true_iff in Hok.
+           split; [apply Hok|]. split; [|split].
+           ++ split; [now apply zero_ok_app | assumption].
+           ++ split; [cbn [ds_ms]; lia|]. split; [cbn [ds_zero]; now apply incl_appl, incl_refl | apply incl_refl].
+           ++ intros q' x _ _ Hx. left. exists (dq, chi). split; [apply in_or_app; right; now left | assumption].
+        -- cbn [ds_ok ds_zero ds_cover ds_ms] in *. pose proof Hok as Hok1. apply andb_true_iff in Hok.
+           split; [apply Hok|]. split; [now split|]. split; [same_sets|].
+           intros q' x Hq' Hn Hx. exfalso.
+           apply le_e_false in Hle2. destruct Hle2 as [w [Hw Hlt]].
+           apply eadd_some in Hw. destruct Hw as [w1 [Hw1 ->]]. unfold upper_chi in Hw1.
+           apply eadd_some in Hw1. destruct Hw1 as [w2 [Hw2 ->]].
+           apply eadd_some in Hw2. destruct Hw2 as [w3 [Hw3 ->]].
+           apply eadd_some in Hw3. destruct Hw3 as [v [Hv ->]].
+           assert (Hlt' : v + c_maxd Q + c_maxd Q < dq) by lia.
+           apply (Hfar v Hv Hok1 (or_intror (conj Hnl Hlt')) q' x Hq' Hn Hx).
+    + cbn [ds_ok ds_zero ds_cover ds_ms] in *. pose proof Hok as Hok1. apply andb_true_iff in Hok.
+      split; [apply Hok|]. split; [now split|]. split; [same_sets|].
+      intros q' x Hq' Hn Hx. exfalso.
+      apply le_e_false in Hle. destruct Hle as [w [Hw Hlt]]. unfold upper_chi in Hw.
+      apply eadd_some in Hw. destruct Hw as [w2 [Hw2 ->]].
+      apply eadd_some in Hw2. destruct Hw2 as [w3 [Hw3 ->]].
+      apply eadd_some in Hw3. destruct Hw3 as [v [Hv ->]].
+      assert (Hlt' : v + c_maxd Q + c_maxd Q + c_maxd chi < dq) by lia.
+      apply (Hfar v Hv Hok1 (or_introl Hlt') q' x Hq' Hn Hx).
+  - cbn [ds_ok ds_zero ds_cover ds_ms] in *. pose proof Hok as Hok1. apply andb_true_iff in Hok.
+    split; [apply Hok|]. split; [now split|]. split; [same_sets|].
+    intros q' x Hq' Hn Hx. exfalso.
+    unfold shell in Hsh. apply le_e_false in Hsh. destruct Hsh as [w [Hw Hlt]]. unfold upper_chi in Hw.
+    apply eadd_some in Hw. destruct Hw as [w2 [Hw2 ->]].
+    apply eadd_some in Hw2. destruct Hw2 as [w3 [Hw3 ->]].
+    apply eadd_some in Hw3. destruct Hw3 as [v [Hv ->]].
+    assert (Hdq' : pdist - c_pard chi <= dq).
+    { unfold dq. pose proof (Htri (c_p Q) (c_p chi) (c_p par) Hdq Hdc Hdp) as Ht.
+      rewrite (Hsym (c_p chi) (c_p par) Hdc Hdp) in Ht. lia. }
+    assert (Hlt' : v + c_maxd Q + c_maxd Q + c_maxd chi < dq) by lia.
+    apply (Hfar v Hv Hok1 (or_introl Hlt') q' x Hq' Hn Hx).
+Qed.
+
+Definition child_facts (cs : nat) (par : ctree) (c : ctree) : Prop :=
+  node_ok c /\ dd d (c_p par) (c_p c) <= c_pard c /\ (is_leaf c = true \/ (cs < c_scale c)%nat).
+
+Lemma descend_children_spec : forall Q cs par pdist chs st,
+  ds_ok (descend_children d au Q pdist chs st) = true ->
+  node_ok Q -> dom (c_p par) -> pdist = dd d (c_p Q) (c_p par) ->
+  (forall c, In c chs -> child_facts cs par c) ->
+  st_ok (c_p Q) cs st ->
+  ds_ok st = true /\ st_ok (c_p Q) cs (descend_children d au Q pdist chs st) /\
+  grows st (descend_children d au Q pdist chs st) /\
+  forall q' x, In q' (lp Q) -> needed q' x -> (exists c, In c chs /\ In x (lp c)) ->
+    in_zero (ds_zero (descend_children d au Q pdist chs st)) x \/
+    in_cover (ds_cover (descend_children d au Q pdist chs st)) (S cs) x.
+Proof.
+  intros Q cs par pdist chs. induction chs as [|chi rest IH]; intros st Hok HQ Hdp Hpd Hch Hst.
+  - cbn [descend_children] in *. split; [assumption|]. split; [assumption|]. split; [apply grows_refl|].
+    intros q' x _ _ [c [[] _]].
+  - cbn [descend_children] in *.
+    assert (Hch' : forall c, In c rest -> child_facts cs par c) by (intros c Hc; apply Hch; now right).
+    destruct (Hch chi (or_introl eq_refl)) as [Hchi [Hpard Hsc]].
+    set (st1 := descend_child d au Q pdist chi st) in *.
+    assert (Hst1 : ds_ok st1 = true /\ st_ok (c_p Q) cs st1).
+    { (* the flag of the final state implies the flag of st1; st_ok needs the flag first *)
+      assert (Hf : ds_ok st1 = true -> st_ok (c_p Q) cs st1).
+      { intros H1. apply (descend_child_spec Q cs par pdist chi st H1 HQ Hchi Hdp Hpd Hpard Hsc Hst). }
+      (* descend_children only ever and-s the flag *)
+      assert (Hmono : forall l s0, ds_ok (descend_children d au Q pdist l s0) = true -> ds_ok s0 = true).
+      { induction l as [|a l IHl]; intros s0 H0; cbn [descend_children] in H0; [assumption|].
+        apply IHl in H0. unfold descend_child in H0.
+        destruct (shell pdist (c_pard a) _); [destruct (le_e _ _); [destruct (negb (is_leaf a)); [|destruct (le_e _ _)]|]|];
+          cbn [ds_ok] in H0; apply andb_true_iff in H0; apply H0. }
+      pose proof (Hmono rest st1 Hok) as H1. split; [assumption | now apply Hf]. }
+    destruct Hst1 as [Hok1 Hst1].
+    destruct (descend_child_spec Q cs par pdist chi st Hok1 HQ Hchi Hdp Hpd Hpard Hsc Hst) as [Hok0 [_ [Hg1 Hcov1]]].
+    destruct (IH st1 Hok HQ Hdp Hpd Hch' Hst1) as [_ [Hst' [Hg2 Hcov2]]].
+    split; [assumption|]. split; [assumption|]. split; [eapply grows_trans; eassumption|].
+    intros q' x Hq' Hn [c [[<-|Hc] Hx]].
+    + destruct (Hcov1 q' x Hq' Hn Hx) as [H|H].
+      * left. apply (in_zero_incl _ _ x (proj1 (proj2 Hg2)) H).
+      * right. apply (in_cover_incl _ _ _ x (proj2 (proj2 Hg2)) H).
+    + apply (Hcov2 q' x Hq' Hn). now exists c.
+Qed.
+
+Lemma descend_first_spec : forall Q cs par pdist chi st,
+  let ub := ds_ub st in
+  let ok1 := ds_ok st && au false Q ub in
+  let st' := descend_first Q pdist (eadd (eadd (ub0 ub) (c_maxd Q)) (c_maxd Q)) chi st ok1 in
+  ok1 = true ->
+  node_ok Q -> node_ok chi -> c_p chi = c_p par -> pdist = dd d (c_p Q) (c_p par) ->
+  (is_leaf chi = true \/ (cs < c_scale chi)%nat) ->
+  st_ok (c_p Q) cs st ->
+  ds_ok st' = true /\ st_ok (c_p Q) cs st' /\ grows st st' /\ ds_ub st' = ub /\
+  forall q' x, In q' (lp Q) -> needed q' x -> In x (lp chi) ->
+    in_zero (ds_zero st') x \/ in_cover (ds_cover st') (S cs) x.
+Proof.
+  intros Q cs par pdist chi st ub ok1 st' Hok1 HQ Hchi Hp Hpd Hsc [Hz Hc].
+  pose proof (node_ok_dom Q HQ) as Hdq. pose proof (maxd_nonneg chi Hchi) as Hmc.
+  pose proof Hok1 as Hok1'. apply andb_true_iff in Hok1'. destruct Hok1' as [_ Hau].
+  assert (Hpd' : pdist = dd d (c_p Q) (c_p chi)) by (rewrite Hp; exact Hpd).
+  assert (Hfar : forall w, ub0 ub = Some w ->
+                 w + c_maxd Q + c_maxd Q + c_maxd chi < pdist \/
+                 (is_leaf chi = true /\ w + c_maxd Q + c_maxd Q < pdist) ->
+                 forall q' x, In q' (lp Q) -> needed q' x -> In x (lp chi) -> False).
+  { intros w Hw Hcase q' x Hq' Hn Hx.
+    assert (Hfx : w + c_maxd Q + c_maxd Q < dd d (c_p Q) x).
+    { destruct Hcase as [H|[Hl H]].
+      - assert (H' : w + (c_maxd Q + c_maxd Q) + c_maxd chi < dd d (c_p Q) (c_p chi)) by lia.
+        pose proof (far_below (c_p Q) chi w (c_maxd Q + c_maxd Q) x Hdq Hchi H' Hx). lia.
+      - rewrite (lp_leaf chi Hl) in Hx. destruct Hx as [<-|[]]. lia. }
+    exact (audit_descend Q ub w q' x HQ Hau Hw Hq' Hfx (Hpts x (proj2 Hchi x Hx)) Hn). }
+  unfold st', descend_first. fold ub.
+  destruct (le_e pdist (eadd (eadd (eadd (ub0 ub) (c_maxd Q)) (c_maxd Q)) (c_maxd chi))) eqn:Hle.
+  - destruct (negb (is_leaf chi)) eqn:Hnl.
+    + apply negb_true_iff in Hnl. destruct Hsc as [Hsc|Hsc]; [congruence|].
+      cbn [ds_ok ds_zero ds_cover ds_ms ds_ub]. split; [assumption|]. split; [|split; [|split]].
+      * split; [assumption|]. now apply cover_ok_app.
+      * split; [cbn [ds_ms]; lia|]. split; [apply incl_refl | cbn [ds_cover]; now apply incl_appl, incl_refl].
+      * reflexivity.
+      * intros q' x _ _ Hx. right. exists (c_scale chi), pdist, chi.
+        split; [apply in_or_app; right; now left|]. split; [lia | assumption].
+    + apply negb_false_iff in Hnl.
+      destruct (le_e pdist (eadd (eadd (ub0 ub) (c_maxd Q)) (c_maxd Q))) eqn:Hle2.
+      * cbn [ds_ok ds_zero ds_cover ds_ms ds_ub]. split; [assumption|]. split; [|split; [|split]].
+        -- split; [now apply zero_ok_app | assumption].
+        -- split; [cbn [ds_ms]; lia|]. split; [cbn [ds_zero]; now apply incl_appl, incl_refl | apply incl_refl].
+        -- reflexivity.
+        -- intros q' x _ _ Hx. left. exists (pdist, chi). split; [apply in_or_app; right; now left | assumption].
+      * cbn [ds_ok ds_zero ds_cover ds_ms ds_ub]. split; [assumption|]. split; [now split|]. split; [same_sets|].
+        split; [reflexivity|]. intros q' x Hq' Hn Hx. exfalso.
+        apply le_e_false in Hle2. destruct Hle2 as [w [Hw Hlt]].
+        apply eadd_some in Hw. destruct Hw as [w2 [Hw2 ->]].
+        apply eadd_some in Hw2. destruct Hw2 as [w3 [Hw3 ->]].
+        apply (Hfar w3 Hw3 (or_intror (conj Hnl Hlt)) q' x Hq' Hn Hx).
+  - cbn [ds_ok ds_zero ds_cover ds_ms ds_ub]. split; [assumption|]. split; [now split|]. split; [same_sets|].
+    split; [reflexivity|]. intros q' x Hq' Hn Hx. exfalso.
+    apply le_e_false in Hle. destruct Hle as [w [Hw Hlt]].
+    apply eadd_some in Hw. destruct Hw as [w1 [Hw1 ->]].
+    apply eadd_some in Hw1. destruct Hw1 as [w2 [Hw2 ->]].
+    apply eadd_some in Hw2. destruct Hw2 as [w3 [Hw3 ->]].
+    apply (Hfar w3 Hw3 (or_introl Hlt) q' x Hq' Hn Hx).
+Qed.
+
+Lemma descend_children_flag : forall Q pdist l s0,
+  ds_ok (descend_children d au Q pdist l s0) = true -> ds_ok s0 = true.
+Proof.
+  intros Q pdist l. induction l as [|a l IHl]; intros s0 H0; cbn [descend_children] in H0; [assumption|].
+  apply IHl in H0. unfold descend_child in H0.
+  destruct (shell pdist (c_pard a) _); [destruct (le_e _ _); [destruct (negb (is_leaf a)); [|destruct (le_e _ _)]|]|];
+    cbn [ds_ok] in H0; apply andb_true_iff in H0; apply H0.
+Qed.
+
+Lemma descend_first_flag : forall Q pdist ud chi st ok1,
+  ds_ok (descend_first Q pdist ud chi st ok1) = ok1.
+Proof.
+  intros Q pdist ud chi st ok1. unfold descend_first.
+  destruct (le_e pdist (eadd ud (c_maxd chi))); [|reflexivity].
+  destruct (negb (is_leaf chi)); [reflexivity|].
+  destruct (le_e pdist ud); reflexivity.
+Qed.
+
+Definition parent_facts (q : Z) (cs : nat) (e : dnode) : Prop :=
+  fst e = dd d q (c_p (snd e)) /\ node_ok (snd e) /\ is_leaf (snd e) = false /\ (cs <= c_scale (snd e))%nat.
+
+Lemma descend_parent_spec : forall Q cs pdist par st,
+  ds_ok (descend_parent d au Q pdist par st) = true ->
+  node_ok Q -> parent_facts (c_p Q) cs (pdist, par) -> st_ok (c_p Q) cs st ->
+  ds_ok st = true /\ st_ok (c_p Q) cs (descend_parent d au Q pdist par st) /\
+  grows st (descend_parent d au Q pdist par st) /\
+  forall q' x, In q' (lp Q) -> needed q' x -> In x (lp par) ->
+    in_zero (ds_zero (descend_parent d au Q pdist par st)) x \/
+    in_cover (ds_cover (descend_parent d au Q pdist par st)) (S cs) x.
+Proof.
+  intros Q cs pdist par st Hok HQ [Hpd [Hpar [Hnl Hscp]]] Hst. cbn [fst snd] in Hpd, Hpar, Hnl, Hscp.
+  pose proof (node_ok_dom Q HQ) as Hdq. pose proof (node_ok_dom par Hpar) as Hdp.
+  unfold descend_parent in *.
+  set (ub := ds_ub st) in *. set (ok1 := ds_ok st && au false Q ub) in *.
+  destruct (le_e pdist (eadd (eadd (eadd (ub0 ub) (c_maxd Q)) (c_maxd Q)) (c_maxd par))) eqn:Hle.
+  - destruct par as [p m pd sc ch]. cbn [c_ch] in *. destruct ch as [|chi rest].
+    + cbn [ds_ok] in Hok. discriminate.
+    + destruct (inv_children _ _ _ _ _ _ (proj1 Hpar)) as [Hp Hch].
+      assert (Hcf : forall c, In c (chi :: rest) -> child_facts cs (CN p m pd sc (chi :: rest)) c).
+      { intros c Hc. destruct (Hch c Hc) as [H1 [H2 H3]]. split; [|split].
+        - apply (node_ok_child (CN p m pd sc (chi :: rest)) c Hpar). exact Hc.
+        - exact H1.
+        - cbn [c_scale] in Hscp. destruct H2 as [H2|H2]; [now left | right; lia]. }
+      set (st1 := descend_first Q pdist (eadd (eadd (ub0 ub) (c_maxd Q)) (c_maxd Q)) chi st ok1) in *.
+      pose proof (descend_children_flag Q pdist rest st1 Hok) as Hok1.
+      assert (Hok1' : ok1 = true).
+      { unfold st1 in Hok1. now rewrite descend_first_flag in Hok1. }
+      destruct (Hcf chi (or_introl eq_refl)) as [Hchi [_ Hsc]].
+      destruct (descend_first_spec Q cs (CN p m pd sc (chi :: rest)) pdist chi st
+                  Hok1' HQ Hchi Hp Hpd Hsc Hst) as [_ [Hst1 [Hg1 [_ Hcov1]]]].
+      fold ub in Hst1, Hg1, Hcov1. fold ok1 in Hst1, Hg1, Hcov1. fold st1 in Hst1, Hg1, Hcov1.
+      assert (Hcf' : forall c, In c rest -> child_facts cs (CN p m pd sc (chi :: rest)) c)
+        by (intros c Hc; apply Hcf; now right).
+      destruct (descend_children_spec Q cs (CN p m pd sc (chi :: rest)) pdist rest st1 Hok HQ Hdp Hpd Hcf' Hst1)
+        as [_ [Hst' [Hg2 Hcov2]]].
+      split; [apply andb_true_iff in Hok1'; apply Hok1'|]. split; [assumption|].
+      split; [eapply grows_trans; eassumption|].
+      intros q' x Hq' Hn Hx. rewrite lp_inner in Hx. apply in_flat_map in Hx. destruct Hx as [c [[<-|Hc] Hx]].
+      * destruct (Hcov1 q' x Hq' Hn Hx) as [H|H].
+        -- left. apply (in_zero_incl _ _ x (proj1 (proj2 Hg2)) H).
+        -- right. apply (in_cover_incl _ _ _ x (proj2 (proj2 Hg2)) H).
+      * apply (Hcov2 q' x Hq' Hn). now exists c.
+  - cbn [ds_ok ds_zero ds_cover ds_ms] in *. pose proof Hok as Hok1. apply andb_true_iff in Hok.
+    split; [apply Hok|]. split; [exact Hst|]. split; [same_sets|].
+    intros q' x Hq' Hn Hx. exfalso.
+    apply le_e_false in Hle. destruct Hle as [w [Hw Hlt]].
+    apply eadd_some in Hw. destruct Hw as [w1 [Hw1 ->]].
+    apply eadd_some in Hw1. destruct Hw1 as [w2 [Hw2 ->]].
+    apply eadd_some in Hw2. destruct Hw2 as [v [Hv ->]].
+    assert (H' : v + (c_maxd Q + c_maxd Q) + c_maxd par < dd d (c_p Q) (c_p par)) by lia.
+    pose proof (far_below (c_p Q) par v (c_maxd Q + c_maxd Q) x Hdq Hpar H' Hx) as Hfx.
+    assert (Hfx' : v + c_maxd Q + c_maxd Q < dd d (c_p Q) x) by lia.
+    exact (audit_descend Q ub v q' x HQ (proj2 Hok) Hv Hq' Hfx' (Hpts x (proj2 Hpar x Hx)) Hn).
+Qed.
+
+Lemma descend_loop_spec : forall Q cs parents st,
+  ds_ok (descend_loop d au Q parents st) = true ->
+  node_ok Q -> (forall e, In e parents -> parent_facts (c_p Q) cs (snd e)) -> st_ok (c_p Q) cs st ->
+  ds_ok st = true /\ st_ok (c_p Q) cs (descend_loop d au Q parents st) /\
+  grows st (descend_loop d au Q parents st) /\
+  forall q' x, In q' (lp Q) -> needed q' x -> (exists e, In e parents /\ In x (lp (snd (snd e)))) ->
+    in_zero (ds_zero (descend_loop d au Q parents st)) x \/
+    in_cover (ds_cover (descend_loop d au Q parents st)) (S cs) x.
+Proof.
+  intros Q cs parents. induction parents as [|[s [pdist par]] rest IH]; intros st Hok HQ Hpf Hst.
+  - cbn [descend_loop] in *. split; [assumption|]. split; [assumption|]. split; [apply grows_refl|].
+    intros q' x _ _ [e [[] _]].
+  - cbn [descend_loop] in *.
+    set (st1 := descend_parent d au Q pdist par st) in *.
+    assert (Hpf' : forall e, In e rest -> parent_facts (c_p Q) cs (snd e)) by (intros e He; apply Hpf; now right).
+    pose proof (Hpf _ (or_introl eq_refl)) as Hp0. cbn [snd] in Hp0.
+    (* the flag of st1 follows from the flag at the end: strengthen the induction with it *)
+    assert (Hflag : forall l s0, ds_ok (descend_loop d au Q l s0) = true ->
+                    (forall e, In e l -> parent_facts (c_p Q) cs (snd e)) -> ds_ok s0 = true).
+    { induction l as [|[s' [pd' par']] l IHl]; intros s0 H0 Hl; cbn [descend_loop] in H0; [assumption|].
+      apply IHl in H0; [|intros e He; apply Hl; now right].
+      unfold descend_parent in H0.
+      destruct (le_e pd' _).
+      - destruct (c_ch par') as [|c0 r0]; [cbn [ds_ok] in H0; discriminate|].
+        apply descend_children_flag in H0. rewrite descend_first_flag in H0.
+        apply andb_true_iff in H0. apply H0.
+      - cbn [ds_ok] in H0. apply andb_true_iff in H0. apply H0. }
+    pose proof (Hflag rest st1 Hok Hpf') as Hok1.
+    destruct (descend_parent_spec Q cs pdist par st Hok1 HQ Hp0 Hst) as [Hok0 [Hst1 [Hg1 Hcov1]]].
+    destruct (IH st1 Hok HQ Hpf' Hst1) as [_ [Hst' [Hg2 Hcov2]]].
+    split; [assumption|]. split; [assumption|]. split; [eapply grows_trans; eassumption|].
+    intros q' x Hq' Hn [e [[<-|He] Hx]].
+    + cbn [snd] in Hx. destruct (Hcov1 q' x Hq' Hn Hx) as [H|H].
+      * left. apply (in_zero_incl _ _ x (proj1 (proj2 Hg2)) H).
+      * right. apply (in_cover_incl _ _ _ x (proj2 (proj2 Hg2)) H).
+    + apply (Hcov2 q' x Hq' Hn). now exists e.
+Qed.
+
+Definition cov_inv (Q : ctree) (cover : list centry) (zero : list dnode) (cs : nat) : Prop :=
+  forall q' x, In q' (lp Q) -> needed q' x -> covered cover zero cs x.
+
+Lemma descend_spec : forall Q cs ub ms cover zero ok,
+  let st' := descend d au Q cs (DS ub ms cover zero ok) in
+  ds_ok st' = true ->
+  node_ok Q -> zero_ok (c_p Q) zero -> cover_ok (c_p Q) cs ms cover -> cov_inv Q cover zero cs ->
+  ok = true /\ zero_ok (c_p Q) (ds_zero st') /\ cover_ok (c_p Q) (S cs) (ds_ms st') (ds_cover st') /\
+  cov_inv Q (ds_cover st') (ds_zero st') (S cs).
+Proof.
+  intros Q cs ub ms cover zero ok st' Hok HQ Hz Hc Hcov. unfold st', descend in *. cbn [ds_cover] in *.
+  set (parents := filter (in_slot cs) cover) in *.
+  set (st1 := descend_loop d au Q parents (DS ub ms cover zero ok)) in *.
+  cbn [ds_ok ds_zero ds_cover ds_ms ds_ub] in *.
+  assert (Hpf : forall e, In e parents -> parent_facts (c_p Q) cs (snd e)).
+  { intros [s [dist n]] He. unfold parents in He. apply filter_In in He. destruct He as [Hin Hs].
+    unfold in_slot, slot_of in Hs. cbn [fst] in Hs. apply Nat.eqb_eq in Hs. subst s.
+    destruct (Hc cs dist n Hin (Nat.le_refl _)) as [_ [H2 [H3 [H4 H5]]]]. unfold parent_facts. cbn [fst snd].
+    split; [exact H4|]. split; [exact H5|]. split; [exact H2 | exact H3]. }
+  assert (Hst : st_ok (c_p Q) cs (DS ub ms cover zero ok)) by (split; assumption).
+  destruct (descend_loop_spec Q cs parents _ Hok HQ Hpf Hst) as [Hok0 [[Hz1 Hc1] [Hg Hcov1]]].
+  fold st1 in Hz1, Hc1, Hg, Hcov1. cbn [ds_ok] in Hok0. split; [assumption|]. split; [assumption|]. split.
+  - intros s dist n Hin Hs. apply filter_In in Hin. destruct Hin as [Hin _].
+    apply (Hc1 s dist n Hin). lia.
+  - intros q' x Hq' Hn.
+    assert (Hkeep : in_cover (ds_cover st1) (S cs) x ->
+                    in_cover (filter (fun e => negb (in_slot cs e)) (ds_cover st1)) (S cs) x).
+    { intros [s [dist [n [Hin [Hs Hx]]]]]. exists s, dist, n. split; [|now split].
+      apply filter_In. split; [assumption|]. unfold in_slot, slot_of. cbn [fst].
+      apply negb_true_iff, Nat.eqb_neq. lia. }
+    destruct (Hcov q' x Hq' Hn) as [H|[s [dist [n [Hin [Hs Hx]]]]]].
+    + left. apply (in_zero_incl _ _ x (proj1 (proj2 Hg)) H).
+    + destruct (Nat.eq_dec s cs) as [->|Hne].
+      * assert (Hp : In (cs, (dist, n)) parents).
+        { unfold parents. apply filter_In. split; [assumption|]. unfold in_slot, slot_of. cbn [fst]. apply Nat.eqb_refl. }
+        destruct (Hcov1 q' x Hq' Hn (ex_intro _ (cs, (dist, n)) (conj Hp Hx))) as [H|H]; [now left|].
+        right. now apply Hkeep.
+      * right. apply Hkeep. exists s, dist, n. split; [apply (proj2 (proj2 Hg)); exact Hin|]. split; [lia | assumption].
+Qed.
+
 End Complete.
